@@ -1004,6 +1004,10 @@ func waitReloadReadyOrSignal(
 				if log != nil {
 					log.Warnln("[Reload] Signal received while current reload is still becoming ready; ignoring it")
 				}
+				// Answer the requester like a refusal in any other stage does: without this the
+				// signal is dropped silently and the requester later reads the in-progress
+				// reload's result as its own.
+				restoreRejectedReloadProgress(nil, true)
 				continue
 			case syscall.SIGINT, syscall.SIGTERM, syscall.SIGQUIT, syscall.SIGKILL:
 				return reloadReadyWaitSignal, sig
